@@ -14,7 +14,9 @@ use crate::{
             format_local_assignment_no_trivia,
         },
         block::{format_block, format_last_stmt_no_trivia},
-        expression::{format_expression, hang_expression_trailing_newline},
+        expression::{
+            format_expression, hang_expression_trailing_newline, parentheses_contain_comments,
+        },
         functions::{format_function_call, format_function_declaration, format_local_function},
         general::{
             format_end_token, format_punctuated, format_punctuated_multiline,
@@ -55,8 +57,13 @@ pub fn remove_condition_parentheses(expression: Expression) -> Expression {
     match expression.to_owned() {
         Expression::Parentheses {
             expression: inner_expression,
-            ..
-        } => {
+            contained,
+        } if !parentheses_contain_comments(&contained)
+            && !contained
+                .tokens()
+                .0
+                .has_leading_comments(CommentSearch::All) =>
+        {
             let (_, comments) = trivia_util::take_trailing_comments(&expression);
             inner_expression.update_trailing_trivia(FormatTriviaType::Append(comments))
         }
